@@ -89,7 +89,7 @@ theorem KState.size_setUsage (s : KState ℚ σ) (e : EvId) : (s.setUsage e).eve
   simp [KState.setUsage, KState.setEv]
 
 theorem Pkg.setUsage {s : KState ℚ σ} {ex : Option EvId} (h : Pkg s ex) (e : EvId) : Pkg (s.setUsage e) ex :=
-  h.setEv e _ rfl (fun l hl => ⟨l, hl, fun _ _ hm => hm⟩) (fun l' c hl hm => Or.inl ⟨l', hl, hm⟩) (fun h1 => h1)
+  h.setEv e _ rfl (fun l hl => ⟨l, hl, fun _ _ hm => hm⟩) (fun l' _ hl hm => Or.inl ⟨l', hl, hm⟩) (fun h1 => h1)
     (fun h1 h2 => absurd h1 h2)
 
 theorem NR.setUsage (s : KState ℚ σ) (e : EvId) : NR s (s.setUsage e) := by
